@@ -156,6 +156,7 @@ fn alphabet(quick: bool, seed: u64) -> Vec<Val> {
         strv("10"),
         atom("|4142|", Cell::Bitstr(Xbitstr::from(vec![0x41u8, 0x42]))),
         vecv(vec![int(2), int(1)]),
+        vecv(vec![strv("a"), strv("b")]),
         mapv(vec![(strv("10"), int(7))]),
     ];
     if !quick {
@@ -390,6 +391,8 @@ struct Target {
 
 fn templates() -> Vec<Target> {
     let t = |name: &str, arity, src: &str| Target { name: format!("template:{}", name), src: src.to_string(), arity: Some(arity), fmt_withheld: false, read_word: false };
+    // templates whose result comes from a binary read word (those attach len / big tags by design)
+    let tr = |name: &str, arity, src: &str| Target { name: format!("template:{}", name), src: src.to_string(), arity: Some(arity), fmt_withheld: false, read_word: true };
     vec![
         t("foreach-I", 1, "foreach I loop"),
         t("do-I", 2, "do I loop"),
@@ -401,6 +404,12 @@ fn templates() -> Vec<Target> {
         t("let-map", 1, "let { \"10\" x } x"),
         t("let-literal", 1, "let 1"),
         t("const", 1, "#( 1 const c13c #) c13c"),
+        // run-time values stored into the parsing module's own variables, then used by the words that read them
+        t("big?-store-pack", 1, "! big? 258 u16! 258 24 uint!"),
+        tr("big?-store-read", 1, "! big? |0102| open-bitstr u16"),
+        tr("offset-store-read", 1, "|010203| open-bitstr ! offset u8"),
+        tr("input-store-read", 1, "! input u8"),
+        t("output-length-store", 1, "! output-length |ff| emit output-length"),
     ]
 }
 
